@@ -295,6 +295,107 @@ fn binop_driver(t: &Tier, m: &mut Matrix, sink: &mut Sink, ops: &[&'static str],
             }
         }
     }
+    // divisors longer than the dividend: values just above the largest dividend (2^n, 2^n + 1), far
+    // above it, and long divisors whose value is small; dividends that saturate their length
+    if ops.contains(&"div_rem") {
+        let mut k = 0usize;
+        for n in [1usize, 8, 16, 31, 32, 33, 63, 64, 65, 127, 128, 129, 192, 256] {
+            for ext in [1usize, 2, 8, 63, 64, 65, 128] {
+                if t.quick && n > 129 && ext > 8 && ext != 64 {
+                    continue;
+                }
+                for xv in 0..3 {
+                    let x = match xv {
+                        0 => ones(n),
+                        1 => { let mut v = zeros(n); v[n - 1] = 1; v }
+                        _ => random_bits_uniform(&mut rng, n),
+                    };
+                    for yv in 0..4 {
+                        k += 1;
+                        let ylen = n + ext;
+                        let y: Bits = match yv {
+                            0 => { let mut v = zeros(ylen); v[n] = 1; v }                 // 2^n
+                            1 => { let mut v = zeros(ylen); v[n] = 1; v[0] = 1; v }       // 2^n + 1
+                            2 => { let mut v = random_bits_uniform(&mut rng, ylen); v[ylen - 1] = 1; v }
+                            _ => { let mut v = zeros(ylen); v[k % n.min(7)] = 1; v[0] = 1; v } // long but small
+                        };
+                        if t.quick && (k % 3 != 0) && !(xv == 0 && yv < 2) {
+                            continue;
+                        }
+                        let op = ["div_rem", "div", "rem"][k % 3];
+                        if !ops.contains(&op) {
+                            continue;
+                        }
+                        let forms: &[&str] = if op == "div_rem" { &[""] } else { &FORMS6 };
+                        sink.emit(m.run(&Case::new(op, x.clone()).y(YSpec::Bits(y)).forms(forms)));
+                    }
+                }
+            }
+        }
+    }
+    // structured quotients: x = y * q + r with q sparse, its set bits a whole number of storage words
+    // (or one more / one less) apart: long division then meets remainders that are exactly one word
+    // shorter than the shifted divisor, and quotient words that are all zeros
+    if ops.contains(&"div_rem") {
+        let add_into = |acc: &mut Bits, v: &Bits, sh: usize| {
+            let mut carry = 0u8;
+            for i in sh..acc.len() {
+                let b = if i - sh < v.len() { v[i - sh] } else { 0 };
+                let s = acc[i] + b + carry;
+                acc[i] = s & 1;
+                carry = s >> 1;
+            }
+        };
+        let gaps = [8usize, 16, 32, 63, 64, 65, 127, 128, 129, 192];
+        let mut k = 0usize;
+        for n in [40usize, 72, 130, 192, 200, 256, 257] {
+            for d in gaps {
+                for p in [d + 1, d + 2, d + 36, n - 3] {
+                    if p < d || p + 2 >= n {
+                        continue;
+                    }
+                    k += 1;
+                    if t.quick && k % 2 == 0 {
+                        continue;
+                    }
+                    // divisor: 1, 3, a power of two, a random value of up to about a word
+                    let ylen = *rng.pick(&[1usize, 2, 8, 33, 64, 65]);
+                    let ylen = ylen.min(n - p - 1).max(1);
+                    let mut y = match k % 4 {
+                        0 => int_bits(1, ylen),
+                        1 => int_bits(3, ylen.max(2)),
+                        2 => { let mut v = zeros(ylen); v[ylen - 1] = 1; v }
+                        _ => random_bits_uniform(&mut rng, ylen),
+                    };
+                    if y.iter().all(|b| *b == 0) {
+                        y[0] = 1;
+                    }
+                    let sig = y.iter().rposition(|b| *b == 1).unwrap() + 1;
+                    if p + sig >= n {
+                        continue;
+                    }
+                    let mut x = zeros(n);
+                    add_into(&mut x, &y, p);
+                    add_into(&mut x, &y, p - d);
+                    if k % 3 == 0 {
+                        add_into(&mut x, &y, 0);
+                    }
+                    // remainder below the divisor
+                    let mut r = random_bits_uniform(&mut rng, sig - 1);
+                    r.resize(sig, 0);
+                    if k % 5 != 0 {
+                        add_into(&mut x, &r, 0);
+                    }
+                    let op = ["div_rem", "div", "rem"][k % 3];
+                    if !ops.contains(&op) {
+                        continue;
+                    }
+                    let forms: &[&str] = if op == "div_rem" { &[""] } else { &FORMS6 };
+                    sink.emit(m.run(&Case::new(op, x).y(YSpec::Bits(y)).forms(forms)));
+                }
+            }
+        }
+    }
     // dense small random cases (both operands short: every kind takes part)
     for _ in 0..t.q(200, 20000) {
         let n = rng.below(t.q(34, 48));
@@ -526,13 +627,20 @@ pub fn drive_c16(t: &Tier, m: &mut Matrix, sink: &mut Sink) {
                     let mut v = lo;
                     v[k + 1] = fillb; // run interrupted by a single opposite bit
                     xs.push(v);
+                    // the run, one opposite bit, then anything: the words beyond the end of the
+                    // run start / end with either bit
+                    for _ in 0..2 {
+                        let r = random_bits_uniform(&mut rng, n);
+                        xs.push((0..n).map(|i| if i < k { fillb } else if i == k { 1 - fillb } else { r[i] }).collect());
+                        xs.push((0..n).map(|i| if i >= n - k { fillb } else if i == n - k - 1 { 1 - fillb } else { r[i] }).collect());
+                    }
                 }
             }
         }
     }
     xs.sort();
     xs.dedup();
-    let xs = if t.quick { sample(&mut rng, &xs, 700) } else { xs };
+    let xs = if t.quick { sample(&mut rng, &xs, 1600) } else { xs };
     for x in xs {
         for op in COUNT_OPS {
             sink.emit(m.run(&Case::new(op, x.clone())));
@@ -819,6 +927,37 @@ pub fn drive_c15(t: &Tier, m: &mut Matrix, sink: &mut Sink) {
                 let a = Args { chars: Some(s2), byval: false, ..Default::default() };
                 let ks: Vec<Kind> = ALL_KINDS.iter().copied().filter(|k| k.admits(4 * n)).collect();
                 sink.emit(m.run(&Case::new("from_hex", vec![]).a(a).capsens().xk(ks)));
+            }
+        }
+    }
+    // zero-padded strings: z leading (or trailing) zero digits, then a non-zero digit and random
+    // digits; z around every multiple of the storage-word digit count
+    for (op, per, digits) in [("from_binary", 1usize, chars("01")), ("from_hex", 4, hexd.clone())] {
+        let nz: Vec<String> = digits.iter().filter(|d| *d != "0").cloned().collect();
+        for n in [2usize, 8, 9, 16, 17, 18, 31, 32, 33, 34, 48, 49, 63, 64, 65, 66, 80, 127, 128, 129, 130, 200] {
+            let mut zs: Vec<usize> = vec![1, 2, n - 1, n / 2];
+            for w in [8 / per, 16 / per, 32 / per, 64 / per, 128 / per] {
+                zs.extend([w.saturating_sub(1), w, w + 1, (n % w.max(1)), (n - 1) % w.max(1) + 1]);
+            }
+            zs.retain(|z| *z >= 1 && *z < n);
+            zs.sort();
+            zs.dedup();
+            for z in zs {
+                for lead in [true, false] {
+                    let mut s: Vec<String> = (0..n).map(|_| rng.pick(&digits).clone()).collect();
+                    if lead {
+                        for c in s.iter_mut().take(z) {
+                            *c = "0".into();
+                        }
+                        s[z] = rng.pick(&nz).clone();
+                    } else {
+                        for c in s.iter_mut().skip(n - z) {
+                            *c = "0".into();
+                        }
+                        s[n - z - 1] = rng.pick(&nz).clone();
+                    }
+                    run_parse(m, sink, op, s, &mut rng);
+                }
             }
         }
     }
